@@ -1,6 +1,319 @@
 package c15
 
-import "verif/internal/fw"
+import (
+	"fmt"
+	"hash/fnv"
+	"math/big"
+	"runtime"
+	"sync"
+	"sync/atomic"
 
-func runConc(c *fw.Ctx) {}
-func runLin(c *fw.Ctx)  {}
+	"gitlab.com/aquachain/aquachain/common"
+	"gitlab.com/aquachain/aquachain/core/types"
+	"verif/internal/fw"
+)
+
+// Concurrent leg (built with -race): phases in which 8-32 goroutines submit and
+// read while exactly one head change is imported and a sampler goroutine checks
+// every "at all times" clause on H3 snapshots. Between phases the pool is
+// quiescent: everything is checked again there, including re-injection after
+// the phase's reorganisation.
+
+type concInput struct {
+	Cfg     poolCfg `json:"cfg"`
+	Procs   int     `json:"gomaxprocs"`
+	Phases  int     `json:"phases"`
+	Workers int     `json:"workers"`
+	PerW    int     `json:"ops_per_worker_and_phase"`
+	Index   int     `json:"index"`
+}
+
+type wop struct {
+	kind  string // add | batch | pending | content | stats | status | get | statenonce | gasprice | setgasprice
+	txs   []*types.Transaction
+	local bool
+	price *big.Int
+}
+
+func runConc(c *fw.Ctx) {
+	n := c.Pick(4, 40)
+	for i := 0; i < n; i++ {
+		r := c.Rand("conc", fmt.Sprint(i))
+		workers := []int{8, 12, 16, 24, 32}[r.Intn(5)]
+		phases := r.Range(6, 10)
+		in := concInput{Cfg: genCfg(r, r.Bool()), Procs: []int{2, 4, 16}[(i+c.Batch)%3], Phases: phases, Workers: workers, PerW: 2000/(phases*workers) + 1, Index: i}
+		id := fmt.Sprintf("conc-%d", i)
+		c.Case(id, in, func() { runConcCase(c, r, in, id) })
+	}
+}
+
+func runConcCase(c *fw.Ctx, r *fw.Rand, in concInput, id string) {
+	prev := runtime.GOMAXPROCS(in.Procs)
+	defer runtime.GOMAXPROCS(prev)
+	u := newUniverse(c, r, in.Cfg)
+	defer u.close()
+	q := &seqRun{u: u, r: r}
+	q.s = u.snapshot()
+	u.checkInv(q.s, opCtx{op: "init"})
+	order := fnv.New64a()
+	totalOps, samples := 0, 0
+	for ph := 0; ph < in.Phases && !q.dead; ph++ {
+		s0 := q.s
+		oldHead := u.head
+		// --- plan the head change (built before the phase starts)
+		var blocks []*types.Block
+		kind := "none"
+		switch x := r.Intn(10); {
+		case x < 5:
+			kind = "advance"
+			blocks = []*types.Block{u.buildBlock(u.head, q.minerPlan(r, u.head, r.Chance(1, 4))).Block}
+			if r.Chance(1, 3) {
+				blocks = append(blocks, u.buildBlock(blocks[0], blockPlan{}).Block)
+			}
+		case x < 8 && u.head.NumberU64() > 0:
+			kind = "reorg"
+			d := r.Range(1, minI(3, int(u.head.NumberU64())))
+			anc := u.ancestorOf(u.head, d)
+			old := u.branchTxs(anc, u.head)
+			for i, j := 0, len(old)-1; i < j; i, j = i+1, j-1 {
+				old[i], old[j] = old[j], old[i]
+			}
+			keep := r.Range(0, 3)
+			blocks = q.buildFork(anc, r.Range(1, d+1), func(i int, parent *types.Block) []*types.Transaction {
+				var cands []*types.Transaction
+				for _, tx := range old {
+					if r.Chance(keep, 3) {
+						cands = append(cands, tx)
+					}
+				}
+				return cands
+			})
+		}
+		// --- plan the workers' operations from the quiescent view
+		plans := make([][]wop, in.Workers)
+		q.nextOff = map[common.Address]uint64{}
+		submitted := 0
+		var allTxs []*types.Transaction
+		raisedTo := new(big.Int).Set(s0.GasPrice)
+		for w := range plans {
+			for k := 0; k < in.PerW; k++ {
+				var o wop
+				switch x := r.Intn(100); {
+				case x < 62:
+					tx, local, _ := q.genTx(r, "")
+					o = wop{kind: "add", txs: []*types.Transaction{tx}, local: local}
+				case x < 72:
+					o = wop{kind: "batch", local: r.Chance(1, 4)}
+					for j := r.Range(2, 5); j > 0; j-- {
+						tx, _, _ := q.genTx(r, "")
+						o.txs = append(o.txs, tx)
+					}
+				case x < 75 && kind != "reorg":
+					p := new(big.Int).Add(s0.GasPrice, big.NewInt(int64(r.Range(-2, 5))))
+					if p.Sign() <= 0 {
+						p = big.NewInt(1)
+					}
+					if p.Cmp(raisedTo) > 0 {
+						raisedTo = p
+					}
+					o = wop{kind: "setgasprice", price: p}
+				default:
+					o = wop{kind: []string{"pending", "content", "stats", "status", "get", "statenonce", "gasprice"}[r.Intn(7)]}
+					if len(allTxs) > 0 {
+						o.txs = []*types.Transaction{allTxs[r.Intn(len(allTxs))]}
+					}
+				}
+				if o.kind == "add" || o.kind == "batch" {
+					submitted += len(o.txs)
+					allTxs = append(allTxs, o.txs...)
+				}
+				plans[w] = append(plans[w], o)
+			}
+		}
+		// contention: some workers fight for the same slots with different prices
+		if len(allTxs) > 0 {
+			for w := 0; w < in.Workers/2; w++ {
+				base := allTxs[r.Intn(len(allTxs))]
+				from := u.senderOf(base)
+				p := bumpThreshold(base.GasPrice(), u.cfg.PriceBump)
+				if r.Bool() {
+					p = new(big.Int).Add(base.GasPrice(), big.NewInt(int64(r.Range(0, 2))))
+				}
+				if u.isRich(from) && base.Nonce() < 1<<62 {
+					tx := u.mkTx(from, base.Nonce(), u.fresh(r), big.NewInt(int64(w)), 21000, p, nil, false)
+					plans[w][r.Intn(len(plans[w]))] = wop{kind: "add", txs: []*types.Transaction{tx}, local: r.Chance(1, 4)}
+					submitted++
+					allTxs = append(allTxs, tx)
+				}
+			}
+		}
+		u.mu.Lock()
+		u.made = append(u.made, allTxs...)
+		u.mu.Unlock()
+		u.note("--- phase %d: %s with %d block(s), %d workers x %d ops, %d transactions submitted, GOMAXPROCS %d", ph, kind, len(blocks), in.Workers, in.PerW, submitted, in.Procs)
+
+		// --- run
+		var seq int64
+		var wg sync.WaitGroup
+		start := make(chan struct{})
+		stamps := make([][]int64, in.Workers)
+		for w := range plans {
+			wg.Add(1)
+			go func(w int) {
+				defer wg.Done()
+				<-start
+				for _, o := range plans[w] {
+					execWop(u, o)
+					stamps[w] = append(stamps[w], atomic.AddInt64(&seq, 1))
+				}
+			}(w)
+		}
+		headDelay := r.Intn(200)
+		wg.Add(1)
+		go func() {
+			defer wg.Done()
+			<-start
+			if len(blocks) == 0 {
+				return
+			}
+			for i := 0; i < headDelay; i++ {
+				runtime.Gosched()
+			}
+			if _, err := u.chain.InsertChain(blocks); err != nil {
+				panic(fmt.Sprintf("harness: generated block rejected: %v", err))
+			}
+		}()
+		stop := make(chan struct{})
+		sdone := make(chan int)
+		go func() {
+			<-start
+			n := 0
+			last := s0
+			for {
+				select {
+				case <-stop:
+					sdone <- n
+					return
+				default:
+				}
+				s := u.snapshot()
+				u.checkInv(s, opCtx{op: "concurrent", before: last})
+				last = s
+				n++
+				runtime.Gosched()
+			}
+		}()
+		close(start)
+		wg.Wait()
+		close(stop)
+		samples += <-sdone
+		totalOps += in.Workers * in.PerW
+		for w := range stamps {
+			for _, st := range stamps[w] {
+				fmt.Fprintf(order, "%d:%d,", w, st)
+			}
+		}
+
+		// --- quiescent checks
+		cur := u.chain.CurrentBlock()
+		x := u.head
+		if cur.Hash() != oldHead.Hash() {
+			x = u.tree.ByHash[cur.Hash()].Block
+		}
+		after := u.waitHead(x)
+		if after == nil {
+			q.dead = true
+			break
+		}
+		u.checkInv(after, opCtx{op: "quiescent", before: s0})
+		u.checkViews(after)
+		c.Count("concurrent_phases")
+		if x.Hash() != oldHead.Hash() {
+			if u.tree.IsAncestor(oldHead, x) {
+				c.Count("concurrent_head_advance")
+			} else {
+				c.Count("concurrent_head_reorg")
+				u.checkReorg(s0, after, oldHead, x, submitted, func(tx *types.Transaction) string {
+					if !isLocal(s0, u.senderOf(tx)) && tx.GasPrice().Cmp(raisedTo) < 0 {
+						return "threshold_raised_concurrently"
+					}
+					return ""
+				})
+			}
+		}
+		q.observeHead(s0, after, oldHead, x)
+		q.s = after
+	}
+	c.CountN("concurrent_operations", totalOps)
+	c.CountN("concurrent_snapshots_checked", samples)
+	c.Nontrivial(fmt.Sprintf("conc %x", order.Sum64()))
+	if c.WantSample() {
+		c.Sample(map[string]interface{}{"case": id, "cfg": in.Cfg, "gomaxprocs": in.Procs, "phases": in.Phases, "workers": in.Workers, "operations": totalOps,
+			"sampled_snapshots": samples, "completion_order_hash": fmt.Sprintf("%x", order.Sum64()), "final_head": u.head.NumberU64(), "last_ops": u.recent})
+	}
+}
+
+func execWop(u *universe, o wop) {
+	c := u.c
+	switch o.kind {
+	case "add":
+		var err error
+		if o.local {
+			err = u.pool.AddLocal(o.txs[0])
+		} else {
+			err = u.pool.AddRemote(o.txs[0])
+		}
+		c.Count("conc_add_" + errClass(err))
+	case "batch":
+		var errs []error
+		if o.local {
+			errs = u.pool.AddLocals(o.txs)
+		} else {
+			errs = u.pool.AddRemotes(o.txs)
+		}
+		for _, e := range errs {
+			c.Count("conc_add_" + errClass(e))
+		}
+	case "setgasprice":
+		u.pool.SetGasPrice(new(big.Int).Set(o.price))
+		c.Count("conc_set_gas_price")
+	case "pending":
+		p, _ := u.pool.Pending()
+		// whatever instant this is: every list handed out is a strictly increasing nonce run
+		for a, l := range p {
+			for i := 1; i < len(l); i++ {
+				if l[i].Nonce() != l[i-1].Nonce()+1 {
+					c.Count("conc_pending_view_with_gap")
+					_ = a
+					break
+				}
+			}
+		}
+		c.Count("conc_read_pending")
+	case "content":
+		u.pool.Content()
+		c.Count("conc_read_content")
+	case "stats":
+		u.pool.Stats()
+		c.Count("conc_read_stats")
+	case "status":
+		if len(o.txs) > 0 {
+			u.pool.Status([]common.Hash{o.txs[0].Hash()})
+		}
+		c.Count("conc_read_status")
+	case "get":
+		if len(o.txs) > 0 {
+			u.pool.Get(o.txs[0].Hash())
+		}
+		c.Count("conc_read_get")
+	case "statenonce":
+		st := u.pool.State()
+		for _, a := range u.senders {
+			st.GetNonce(a)
+		}
+		c.Count("conc_read_state_nonce")
+	case "gasprice":
+		u.pool.GasPrice()
+		c.Count("conc_read_gas_price")
+	}
+}
